@@ -144,10 +144,11 @@ def gen_double_bits(ctx):
                 f &= F52 if pos > 0 else 0xF << 48
                 if pos == 0: f = (v & 0xF) << 48
                 out.append((rng.getrandbits(1) << 63) | (rng.randrange(1, 2047) << 52) | f)
-    # subnormals (known-finding region F1)
+    # subnormals (no hidden bit, fixed exponent -1074; leading zero octets of the scratch pad)
     sub = [1, 2, 3, 4, 5, 6, 7, 8, F52, F52 - 1, 1 << 51, (1 << 51) + 1, (1 << 51) - 1]
     for k in range(0, 52):
         sub += [1 << k, (1 << k) + 1, (1 << k) | (1 << (k // 2))]
+        sub += [((rng.getrandbits(52) | 1) << k) & F52, ((rng.getrandbits(rng.randrange(1, 53)) | 1) << k) & F52]   # k trailing zero bits
     sub += [rng.getrandbits(rng.randrange(1, 53)) for _ in range(100 if ctx.quick else 3000)]
     for f in sub:
         f &= F52
@@ -310,29 +311,9 @@ def run(ctx, drv):
     ctx.cov["distribution"]["real_R2d_oracle_kinds"] = kinds
     ctx.cov["predicate"]["real"] = {"cases": nd + len(second) + nR, "failures": len(pfail)}
 
-    # ---- classification
-    def is_F1(l, bits):
-        return bits is not None and l.startswith("d2R") and is_subnormal_bits(bits)
-    def is_leading_zero(l, c, bits):
-        """normal double, C octets = DER octets with exactly one extra 00 in front of the mantissa"""
-        if bits is None or not l.startswith("d2R") or " ; " in l or is_subnormal_bits(bits): return False
-        try: o = unhx(c)
-        except Exception: return False
-        want = der_real(bits)
-        if len(want) < 3 or len(o) != len(want) + 1: return False
-        h = 1 + (want[0] & 3) + 1
-        return o[:h] == want[:h] and o[h] == 0 and o[h + 1:] == want[h:]
-    unexplained = []
-    nF1 = nLZ = 0
-    for l, c, why, bits in pfail:
-        f = None
-        if is_F1(l, bits):
-            f = ctx.match_finding(lambda f: f["id"] == "F1"); nF1 += 1
-        elif is_leading_zero(l, c, bits):
-            f = ctx.match_finding(lambda f: f["id"] == "F31"); nLZ += 1
-        if not f: unexplained.append((l, c, why))
-    ctx.cov["predicate"]["real"]["known_F1_cases"] = nF1
-    ctx.cov["predicate"]["real"]["known_F31_cases"] = nLZ
+    # ---- every P failure is a violation (the former known regions F1 = subnormal doubles and F31 = redundant
+    # leading 00 mantissa octet are repaired: no classification, nothing is suppressed)
+    unexplained = [(l, c, why) for l, c, why, bits in pfail]
     for l, c, why in unexplained[:5]:
         ctx.violation(f"C16 predicate fails on C: {l} -> {c}: {why}",
                       {"op": l.split(" ; ")[0], "ops": l.split(" ; "), "c_output": c, "why": why, "driver": "prim_driver"})
@@ -341,4 +322,4 @@ def run(ctx, drv):
     if dis:
         ctx.log(f"real correspondence: {len(dis)} disagreements, first: {dis[0][1:]}")
     ctx.log(f"real: {nd} d2R + {len(second)} round trips + {len(rlines)} R2d; P failures {len(pfail)} "
-            f"(F1 {nF1}, F31 {nLZ}, unexplained {len(unexplained)})")
+            f"(subnormal doubles {classes.get('subnormal', 0)}, all counted)")
